@@ -1,6 +1,6 @@
 (* C07 -- procfs lookups stay inside procfs and follow only the requested final link.
    All statements are for all kernel answers. *)
-From PV Require Import Discipline ProgTac DisciplineProofs FaultProofs Hoare ProcfsProps.
+From PV Require Import Discipline ProgTac DisciplineProofs FaultProofs Hoare ProcfsProps EffectProofs.
 Open Scope N_scope.
 
 (* creation flags (O_CREAT, O_EXCL, O_TMPFILE) are refused: the resolver answers
@@ -65,7 +65,19 @@ Proof.
   intros [H|[H|H]]; discriminate H.
 Qed.
 
+(* whatever flags the caller passes, a procfs operation never issues a call that creates or
+   changes anything (mkdirat, mknodat, unlinkat, linkat, symlinkat, renameat(2), open with
+   O_CREAT): creation flags never reach the kernel -- also not through the retry on a fresh
+   handle, nor through open_follow's final open of the magic-link *)
+Theorem C07_procfs_ops_change_nothing :
+  forall fz cfg fuel h base sub flags,
+    calls_le eff 0 (popen fz cfg fuel h base sub flags) /\
+    calls_le eff 0 (popen_follow fz cfg fuel h base sub flags) /\
+    calls_le eff 0 (preadlink fz cfg fuel h base sub).
+Proof. intros. repeat split; [apply popen_ne|apply popen_follow_ne|apply preadlink_ne]. Qed.
+
 Print Assumptions C07_creat_refused.
 Print Assumptions C07_dotdot_never_succeeds.
 Print Assumptions C07_open_never_follows.
 Print Assumptions C07_open_follow_exactly_trailing.
+Print Assumptions C07_procfs_ops_change_nothing.
